@@ -110,7 +110,14 @@ def run(ids, tier):
             env = dict(os.environ, PYTHONPATH=os.path.join(wt, "src"), IRVERIF_OUT_DIR=out_dir)
             for p in props:
                 t0 = time.time()
-                r = sh([os.path.join(VERIF, "check"), p, "--tier", tier], env=env, cwd=VERIF, timeout=7200)
+                try:
+                    r = sh([os.path.join(VERIF, "check"), p, "--tier", tier], env=env, cwd=VERIF, timeout=1800)
+                except subprocess.TimeoutExpired:
+                    sh("ps -eo pid,args | grep 'verif/chec[k] %s' | awk '{print $1}' | xargs -r kill -9" % p)
+                    entry["runs"][p] = {"exit": "timeout", "violation_lines": [], "caught": False,
+                                        "with_failing_input": False, "wall_s": 1800, "tier": tier}
+                    print(sid, p, entry["runs"][p])
+                    continue
                 viol = [l for l in r.stdout.splitlines() if l.startswith("VIOLATION")]
                 entry["runs"][p] = {
                     "exit": r.returncode,
